@@ -1,6 +1,7 @@
 package rules
 
 import (
+	"go/token"
 	"strings"
 
 	"serfcheck/an"
@@ -142,7 +143,7 @@ func runC13(c *an.Ctx) {
 		for _, f := range fns {
 			for _, call := range an.CallsTo(f, "(*Snapshotter).processMemberEvent", "(*Snapshotter).processUserEvent", "(*Snapshotter).processQuery") {
 				rec = append(rec, call)
-				ok := anyGuard(f, call, an.Cmp{L: "*^s.leaving", Op: "==", R: "c:false"}, an.Cmp{L: self + ".leaving", Op: "==", R: "c:false"})
+				ok := anyGuard(f, call, an.Cmp{L: "*^*Snapshotter.leaving", Op: "==", R: "c:false"}, an.Cmp{L: self + ".leaving", Op: "==", R: "c:false"})
 				c.Add(ok, "R3", "stream:recorder-behind-not-leaving:"+kindOf(call), call, kindOf(call)+" runs only while not leaving", "edge dominance")
 			}
 		}
@@ -278,7 +279,7 @@ func runC15(c *an.Ctx) {
 				}
 				// paths that skip the removal must establish old != x
 				neq := an.EdgesWhere(fn, func(f an.Cmp) bool {
-					return f.Op == "!=" && f.R == x && (f.L == statusPath || strings.HasPrefix(f.L, "phi:oldStatus"))
+					return f.Op == "!=" && f.R == x && (f.L == statusPath || phiCarries(fn, f.L, statusPath))
 				})
 				okR, _ := an.MustPassTo(fn, st, func(in ssa.Instruction) bool { return isListStore(in, list, "remove") }, func(in ssa.Instruction) bool {
 					return an.IsExit(in) && in.Block().Comment != "recover"
@@ -375,7 +376,7 @@ func runC15(c *an.Ctx) {
 					}
 				})
 				c.Add(shrink != nil && an.Dominates(shrink, site), "R3", "eraseNode-caller:reap", site, "reap erases only after removing the element from the scanned list", "dominance")
-				c.Add(an.Path(an.CallOf(site).Args[1]) == "phi:old@1[phi:i@1]" || strings.Contains(an.Path(an.CallOf(site).Args[1]), "["), "R3", "eraseNode-caller:reap:element", site, "the erased member is the scanned element", "argument path")
+				c.Add(strings.Contains(an.Path(an.CallOf(site).Args[1]), "["), "R3", "eraseNode-caller:reap:element", site, "the erased member is the scanned element", "argument path")
 			case "(*Serf).handlePrune":
 				hp := site.Parent()
 				neq := append(an.EdgesImplying(hp, an.Cmp{L: "$1.Member.Status", Op: "!=", R: left}), []an.Edge{}...)
@@ -451,7 +452,7 @@ func runC15(c *an.Ctx) {
 		for _, e := range ers {
 			// erase edge: Sub(now, m.leaveTime) > T where T is phi[$3 | override result] defined in the loop body
 			edges := an.EdgesWhere(rp, func(f an.Cmp) bool {
-				return strings.HasPrefix(f.L, "time.(Time).Sub($2,") && strings.HasSuffix(f.L, ".leaveTime)") && f.Op == ">" && strings.HasPrefix(f.R, "phi:")
+				return strings.HasPrefix(f.L, "time.(Time).Sub($2,") && strings.HasSuffix(f.L, ".leaveTime)") && f.Op == ">" && strings.HasPrefix(f.R, "phi@")
 			})
 			c.Add(an.Guarded(rp, e, edges), "R5", "reap:strict-expiry", e, "a member is erased only when now - leaveTime > its timeout (strict)", "edge dominance")
 			for _, ed := range edges {
@@ -471,38 +472,60 @@ func runC15(c *an.Ctx) {
 			}
 		}
 		// induction variable discipline
+		// the loop variables are found by role, not by name: in the post block the index is the
+		// integer phi that is incremented there, the bound is the other integer phi
 		var phiI, phiN *ssa.Phi
 		an.Instrs(rp, func(in ssa.Instruction) {
-			if p, ok := in.(*ssa.Phi); ok && p.Block().Comment == "for.post" {
-				switch p.Comment {
-				case "i":
-					phiI = p
-				case "n":
-					phiN = p
+			p, ok := in.(*ssa.Phi)
+			if !ok || p.Block().Comment != "for.post" || !isIntType(p.Type()) {
+				return
+			}
+			inc := false
+			for _, r := range *p.Referrers() {
+				if b, ok := r.(*ssa.BinOp); ok && b.Op == token.ADD && b.Block() == p.Block() {
+					if k, ok := an.ConstInt(b.Y); ok && k == 1 {
+						inc = true
+					}
 				}
 			}
+			if inc {
+				phiI = p
+			} else {
+				phiN = p
+			}
 		})
+		hdr := func(p *ssa.Phi) (string, bool) {
+			if len(p.Edges) != 2 {
+				return "", false
+			}
+			a, b := an.Path(p.Edges[0]), an.Path(p.Edges[1])
+			for _, pr := range [][2]string{{a, b}, {b, a}} {
+				if strings.HasPrefix(pr[0], "phi@") && pr[1] == "("+pr[0]+"-c:1)" {
+					return pr[0], true
+				}
+			}
+			return "", false
+		}
+		hi, hn := "", ""
 		if phiI == nil || phiN == nil {
-			c.Anchor("R5", "loop variables i and n of reap")
+			c.Anchor("R5", "loop index and bound of reap")
 		} else {
-			okI, okN := false, false
-			ps := []string{an.Path(phiI.Edges[0]), an.Path(phiI.Edges[1])}
-			if len(phiI.Edges) == 2 && (ps[0] == "phi:i@1" && ps[1] == "(phi:i@1-c:1)" || ps[1] == "phi:i@1" && ps[0] == "(phi:i@1-c:1)") {
-				okI = true
-			}
-			pn := []string{an.Path(phiN.Edges[0]), an.Path(phiN.Edges[1])}
-			if len(phiN.Edges) == 2 && (pn[0] == "phi:n@1" && pn[1] == "(phi:n@1-c:1)" || pn[1] == "phi:n@1" && pn[0] == "(phi:n@1-c:1)") {
-				okN = true
-			}
-			c.Add(okI, "R5", "reap:index-net-zero-on-erase", phiI, "the index is decremented on the erase path and unchanged on the keep path before the increment ("+strings.Join(ps, " | ")+")", "phi operands")
-			c.Add(okN, "R5", "reap:bound-shrinks-on-erase", phiN, "the bound shrinks by one exactly on the erase path ("+strings.Join(pn, " | ")+")", "phi operands")
+			var okI, okN bool
+			hi, okI = hdr(phiI)
+			hn, okN = hdr(phiN)
+			c.Add(okI, "R5", "reap:index-net-zero-on-erase", phiI, "the index is decremented on the erase path and unchanged on the keep path before the increment", "phi operands")
+			c.Add(okN, "R5", "reap:bound-shrinks-on-erase", phiN, "the bound shrinks by one exactly on the erase path", "phi operands")
 		}
 		// slot refilled from the last element
 		okFill := false
 		for _, s := range an.FindInstrs(rp, func(in ssa.Instruction) bool { _, ok := in.(*ssa.Store); return ok }) {
 			st := s.(*ssa.Store)
-			if an.Path(st.Addr) == "&phi:old@1[phi:i@1]" && an.Path(st.Val) == "phi:old@1[(phi:n@1-c:1)]" {
-				okFill = true
+			ap, vp := an.Path(st.Addr), an.Path(st.Val)
+			if hi != "" && hn != "" && strings.HasPrefix(ap, "&") && strings.HasSuffix(ap, "["+hi+"]") {
+				list := strings.TrimSuffix(strings.TrimPrefix(ap, "&"), "["+hi+"]")
+				if vp == list+"[("+hn+"-c:1)]" {
+					okFill = true
+				}
 			}
 		}
 		c.Add(okFill, "R5", "reap:refill-from-last", rp, "the vacated slot is refilled from the last element", "store path")
@@ -673,4 +696,23 @@ func runC16(c *an.Ctx) {
 			c.Anchor("R2", t+".Flush")
 		}
 	}
+}
+
+// phiCarries reports whether path p names a variable phi of fn one of whose
+// operands is the value with path want (the variable holds a saved copy of it).
+func phiCarries(fn *ssa.Function, p, want string) bool {
+	if !strings.HasPrefix(p, "phi@") {
+		return false
+	}
+	found := false
+	an.Instrs(fn, func(in ssa.Instruction) {
+		if ph, ok := in.(*ssa.Phi); ok && an.Path(ph) == p {
+			for _, e := range ph.Edges {
+				if an.Path(e) == want {
+					found = true
+				}
+			}
+		}
+	})
+	return found
 }
